@@ -36,6 +36,18 @@ type Case struct {
 	Shred  *SN    `json:"shred,omitempty"`
 	Write  string `json:"write"`
 	Read   string `json:"read"`
+	Churn  int    `json:"churn,omitempty"` // >0: that many extra rows {"id<i>": {"x": i}, "a": 1}: hundreds of distinct field names accumulate in a column writer's dictionary
+}
+
+// expand appends the compactly described churn rows to the generated values.
+func (c Case) expand() Case {
+	for i := 0; i < c.Churn; i++ {
+		c.Values = append(c.Values, VV{K: "object", F: []VF{
+			{Name: fmt.Sprintf("id%04d", i), V: VV{K: "object", F: []VF{{Name: "x", V: VV{K: "int16", I: int64(i)}}}}},
+			{Name: "a", V: VV{K: "int8", I: 1}},
+		}})
+	}
+	return c
 }
 
 var names = []string{"a", "b", "c", "d"}
@@ -141,7 +153,11 @@ func genVV(t *rapid.T, depth int) VV {
 				// many fields: field id / offset sizes above one byte, is_large objects
 				n := []int{40, 256, 300}[rapid.IntRange(0, 2).Draw(t, "widen")]
 				for i := 0; i < n; i++ {
-					v.F = append(v.F, VF{Name: fmt.Sprintf("w%04d", i), V: VV{K: "int16", I: int64(i)}})
+					fv := VV{K: "int16", I: int64(i)}
+					if i%3 == 2 { // nested objects between fields whose ids need two bytes
+						fv = VV{K: "object", F: []VF{{Name: "a", V: VV{K: "int16", I: int64(i)}}}}
+					}
+					v.F = append(v.F, VF{Name: fmt.Sprintf("w%04d", i), V: fv})
 				}
 			}
 			return v
@@ -210,7 +226,10 @@ func genCase(t *rapid.T) Case {
 	for i := 0; i < n; i++ {
 		c.Values = append(c.Values, genVV(t, 0))
 	}
-	c.Write = []string{"generic_writer", "buffer_row_group", "deconstruct_rows"}[rapid.IntRange(0, 2).Draw(t, "write")]
+	if rapid.IntRange(0, 11).Draw(t, "churn") == 5 {
+		c.Churn = rapid.IntRange(260, 420).Draw(t, "churnn")
+	}
+	c.Write = []string{"generic_writer", "buffer_row_group", "deconstruct_rows", "variant_column_writer"}[rapid.IntRange(0, 3).Draw(t, "write")]
 	c.Read = []string{"convert", "direct", "legacy_reader"}[rapid.IntRange(0, 2).Draw(t, "read")]
 	return c
 }
@@ -293,10 +312,23 @@ type readRow struct {
 }
 
 func runCase(c Case, o *kit.Obs) *kit.Failure {
+	o.ClassIf(c.Churn > 0, "field-name-churn")
+	c = c.expand()
 	// (a) encoding: the library's bytes decode, by the independent decoder, to the value; and Decode(Encode(v)) equals v
 	raws := make([]rawVariant, len(c.Values))
+	var sb variant.Builder // one streaming builder for the whole case (its pooled state has a history)
 	for i, vv := range c.Values {
 		val := vv.value()
+		// the streaming builder must produce bytes that decode to the same value
+		sb.Reset()
+		val.Write(&sb)
+		if smeta, sdata, err := sb.Finish(); err != nil {
+			return kit.Failf("c19/builder-error", "value %d (%s): streaming the value through variant.Builder: %v", i, vv.K, err)
+		} else if got, err := refDecode(smeta, sdata); err != nil {
+			return kit.Failf("c19/builder-not-per-spec", "value %d (%s): the independent decoder rejects the bytes of variant.Builder: %v", i, vv.K, err)
+		} else if d := diffVV(vv, got, "value"); d != "" {
+			return kit.Failf("c19/builder-differs", "value %d: the bytes of variant.Builder decode (independently) to a different value: %s", i, d)
+		}
 		var mb variant.MetadataBuilder
 		data := variant.Encode(&mb, val)
 		meta, metaBytes := mb.Build()
@@ -357,6 +389,25 @@ func runCase(c Case, o *kit.Obs) *kit.Failure {
 				werr = w.Close()
 			}
 		}
+	case "variant_column_writer":
+		// the streaming column writer: one dictionary across rows, values shredded on the fly
+		vschema := parquet.NewSchema("table", parquet.Group{"var": node})
+		w := parquet.NewWriter(&buf, vschema)
+		vw, err := parquet.NewVariantColumnWriter(w, "var")
+		if err != nil {
+			o.Rejected()
+			o.Class("column-writer-rejected")
+			return nil
+		}
+		for i, vv := range c.Values {
+			if werr = vw.WriteValue(vv.value()); werr != nil {
+				werr = fmt.Errorf("WriteValue row %d: %w", i, werr)
+				break
+			}
+		}
+		if werr == nil {
+			werr = w.Close()
+		}
 	default:
 		w := parquet.NewGenericWriter[writeRow](&buf, schema)
 		dec := make([]parquet.Row, len(rows))
@@ -409,7 +460,7 @@ func runCase(c Case, o *kit.Obs) *kit.Failure {
 	}
 	partial := false
 	for i, g := range got {
-		if g.ID != int32(i) {
+		if g.ID != int32(i) && c.Write != "variant_column_writer" {
 			return kit.Failf("c19/row-order"+feat, "row %d has id %d", i, g.ID)
 		}
 		back, err := refDecode(g.Var.Metadata, g.Var.Value)
